@@ -14,13 +14,15 @@ struct chan *g_ch;              /* the thread's nOS-V channel array (pre-state v
 
 /* emu, current thread / process / event and their nOS-V extensions are separate
  * valid objects; the channel array holds CH_MAX channels */
-#define EMU_SHAPE ( \
+#define EMU_SHAPE_BASE ( \
 	__CPROVER_is_fresh(emu, sizeof(*emu)) && \
 	__CPROVER_is_fresh(emu->thread, sizeof(struct thread)) && \
 	__CPROVER_is_fresh(emu->proc, sizeof(struct proc)) && \
 	__CPROVER_is_fresh(emu->ev, sizeof(struct emu_ev)) && \
 	__CPROVER_is_fresh(emu->thread->ext.ctx['V'], sizeof(struct nosv_thread)) && \
-	__CPROVER_is_fresh(emu->proc->ext.ctx['V'], sizeof(struct nosv_proc)) && \
+	__CPROVER_is_fresh(emu->proc->ext.ctx['V'], sizeof(struct nosv_proc)) )
+/* ... plus the channel array, for the functions that form channel addresses */
+#define EMU_SHAPE ( EMU_SHAPE_BASE && \
 	__CPROVER_is_fresh(TH->m.ch, CH_MAX * sizeof(struct chan)) && g_ch == TH->m.ch )
 /* proc invariant (proc.c load_rank): rank < nranks, so rank + 1 cannot overflow */
 #define PROC_INV (emu->proc->rank < 0x7fffffff)
@@ -153,11 +155,8 @@ void h_update_task_channels(void)
 	WITNESS_ON(chanb);
 	int r = update_task_channels(emu, tr, bprev, bnext);
 	if (r == 0 && w_tr == 'x') REACH("x: body shown");
-	if (r == 0 && w_tr == 'r') REACH("r: body shown");
 	if (r == 0 && w_tr == 'e') REACH("e: nothing shown");
-	if (r == 0 && w_tr == 'p') REACH("p: nothing shown");
 	if (r == 0 && w_tr == 'X') REACH("X: next body shown");
-	if (r == 0 && w_tr == 'E') REACH("E: next body shown");
 	if (r != 0 && w_tr == 'q') REACH("unknown transition refused");
 }
 
@@ -208,8 +207,6 @@ void h_enforce_task_rules(void)
 	WITNESS_ON(chanb);
 	int r = enforce_task_rules(emu, tr, next);
 	if (r == 0 && w_tr == 'x') REACH("rules hold after x");
-	if (r == 0 && w_tr == 'X') REACH("rules hold after X");
-	if (r == 0 && w_tr == 'e') REACH("no rule after e");
 	if (r != 0 && g_next_state == BODY_ST_RUNNING) REACH("wrong subsystem state refused");
 	if (r != 0 && g_next_state != BODY_ST_RUNNING) REACH("body not running refused");
 }
@@ -221,15 +218,19 @@ void h_enforce_task_rules(void)
  * the corresponding operation on this thread's stack. */
 size_t w_psize; unsigned char w_v; uint32_t w_bid; int w_found, w_par;
 WITNESS(uts);
+/* The payload pointer is typed `union ovni_ev_payload *`; CBMC checks a dereference
+ * against the whole union, so a non-empty payload is a union-sized object (in the
+ * emulator it points into the mapped stream).  Reads past payload_size are thus
+ * not detected here; the size checks themselves are part of the contract. */
 #define PAYLOAD_SHAPE ( emu->ev->payload_size <= 0x100000 && \
 	((emu->ev->payload_size == 0 && emu->ev->payload == NULL) || \
-	 __CPROVER_is_fresh(emu->ev->payload, emu->ev->payload_size)) )
+	 (emu->ev->payload_size > 0 && __CPROVER_is_fresh(emu->ev->payload, sizeof(union ovni_ev_payload)))) )
 #define EV_BID (emu->ev->payload->u32[1])
 #define UTS_CHECKS_OK (emu->ev->payload_size >= 8 && g_tf_task != NULL && \
 	((g_tf_task->flags & TASK_FLAG_PARALLEL) ? EV_BID != 0 : EV_BID == 0) && \
 	(emu->ev->v == 'x' || emu->ev->v == 'e' || emu->ev->v == 'p' || emu->ev->v == 'r'))
 int c_update_task_state(struct emu *emu)
-__CPROVER_requires(EMU_SHAPE && PAYLOAD_SHAPE)
+__CPROVER_requires(EMU_SHAPE_BASE && PAYLOAD_SHAPE)
 __CPROVER_requires(g_tf_head == PR->task_info.tasks && (emu->ev->payload_size < 4 || g_tf_id == emu->ev->payload->u32[0]))
 __CPROVER_requires(g_tf_task == NULL || __CPROVER_is_fresh(g_tf_task, sizeof(struct task)))
 __CPROVER_requires(WBIND(uts, w_psize == emu->ev->payload_size && w_v == emu->ev->v && w_found == (g_tf_task != NULL) &&
@@ -255,10 +256,7 @@ void h_update_task_state(void)
 	if (r == 0 && w_v == 'x' && !w_par) REACH("execute of a non-parallel task (body id 0)");
 	if (r == 0 && w_v == 'x' && w_par) REACH("execute of a parallel task body");
 	if (r == 0 && w_v == 'p') REACH("pause");
-	if (r == 0 && w_v == 'r') REACH("resume");
-	if (r == 0 && w_v == 'e') REACH("end");
 	if (r != 0 && w_psize == 7) REACH("7-byte payload refused");
-	if (r != 0 && w_psize >= 8 && !w_found) REACH("unknown task refused");
 	if (r != 0 && w_psize >= 8 && w_found && w_par && w_bid == 0) REACH("body id 0 of a parallel task refused");
 	if (r != 0 && w_psize >= 8 && w_found && !w_par && w_bid != 0) REACH("non-zero body id of a non-parallel task refused");
 	if (r != 0 && w_psize == 8 && w_found && !w_par && w_bid == 0 && w_v == 'x') REACH("refused by the task layer only");
@@ -269,19 +267,23 @@ void h_update_task_state(void)
  * VTC creates a parallel task (PARALLEL only: it can neither pause nor resurrect);
  * x/e/r/p go to update_task; anything else is refused.
  * update_task is replaced by a call log here (proved in its own group). */
-unsigned g_ut_n; int g_ut_ret; struct emu *g_ut_emu;
-int cl_update_task(struct emu *emu)
-__CPROVER_requires(g_ut_n < 1000000u)
-__CPROVER_assigns(g_ut_n, g_ut_ret, g_ut_emu)
-__CPROVER_ensures(g_ut_n == OLD(g_ut_n) + 1 && g_ut_ret == RV && g_ut_emu == emu)
-;
+struct c07_utlog { unsigned n; int ret; struct emu *emu; } g_ut;
+#define g_ut_n (g_ut.n)
+#define g_ut_ret (g_ut.ret)
+#define g_ut_emu (g_ut.emu)
 #define IS_CREATE (emu->ev->v == 'c' || emu->ev->v == 'C')
 #define IS_UPDATE (emu->ev->v == 'x' || emu->ev->v == 'e' || emu->ev->v == 'r' || emu->ev->v == 'p')
+/* update_task is only ever entered with v in {x,e,r,p}: asserted at the call in pre_task */
+int cl_update_task(struct emu *emu)
+__CPROVER_requires(g_ut_n < 1000000u && IS_UPDATE)
+__CPROVER_assigns(g_ut)
+__CPROVER_ensures(g_ut_n == OLD(g_ut_n) + 1 && g_ut_ret == RV && g_ut_emu == emu)
+;
 int c_pre_task(struct emu *emu)
-__CPROVER_requires(EMU_SHAPE && PAYLOAD_SHAPE)
+__CPROVER_requires(EMU_SHAPE_BASE && PAYLOAD_SHAPE)
 __CPROVER_requires(WBIND(uts, w_psize == emu->ev->payload_size && w_v == emu->ev->v))
 __CPROVER_requires(DIAG_PRE && TL_PRE && g_ut_n < 1000000u)
-__CPROVER_assigns(DIAG_FRAME, TL_FRAME, g_ut_n, g_ut_ret, g_ut_emu)
+__CPROVER_assigns(DIAG_FRAME, TL_FRAME, g_ut)
 /* create: payload >= 8; exactly one task_create(info of this process, type, id, flags per event) */
 __CPROVER_ensures(!IS_CREATE || emu->ev->payload_size >= 8 || (RV == -1 && g_tl_n == OLD(g_tl_n)))
 __CPROVER_ensures(!IS_CREATE || emu->ev->payload_size < 8 || (
@@ -304,9 +306,7 @@ void h_pre_task(void)
 	if (r == 0 && w_v == 'c') REACH("VTc creates a task");
 	if (r == 0 && w_v == 'C') REACH("VTC creates a parallel task");
 	if (r == 0 && w_v == 'x') REACH("VTx handled");
-	if (r == 0 && w_v == 'p') REACH("VTp handled");
 	if (r != 0 && w_v == 'c' && w_psize == 7) REACH("short create payload refused");
-	if (r != 0 && w_v == 'c' && w_psize == 8) REACH("create refused by the task layer");
 	if (r != 0 && w_v == 'z') REACH("unknown task event refused");
 }
 
@@ -319,27 +319,27 @@ void h_pre_task(void)
 #define TOP (TH->task_stack.body_stack.top)
 int cl_update_task_state(struct emu *emu)
 __CPROVER_requires(SEQ_PRE)
-__CPROVER_assigns(g_seq, g_at_state, g_ret_state, TOP)
+__CPROVER_assigns(g_seq, g_sq_state, TOP)
 __CPROVER_ensures(g_seq == OLD(g_seq) + 1 && g_at_state == OLD(g_seq) && g_ret_state == RV)
 __CPROVER_ensures(TOP == NULL || __CPROVER_pointer_equals(TOP, g_nb))
 __CPROVER_ensures(RV != 0 || (emu->ev->v != 'x' && emu->ev->v != 'r') || (TOP != NULL && TOP->state == BODY_ST_RUNNING))
 ;
 int cl_update_task_ss_channel(struct emu *emu, char tr)
 __CPROVER_requires(SEQ_PRE)
-__CPROVER_assigns(g_seq, g_at_ss, g_ret_ss, g_ss_tr)
+__CPROVER_assigns(g_seq, g_sq_ss)
 __CPROVER_ensures(g_seq == OLD(g_seq) + 1 && g_at_ss == OLD(g_seq) && g_ret_ss == RV && g_ss_tr == tr)
 ;
 int cl_update_task_channels(struct emu *emu, char tr, struct body *bprev, struct body *bnext)
 __CPROVER_requires(SEQ_PRE)
 __CPROVER_requires((tr != 'x' && tr != 'r') || bnext != NULL)
-__CPROVER_assigns(g_seq, g_at_chan, g_ret_chan, g_chan_tr, g_chan_prev, g_chan_next)
+__CPROVER_assigns(g_seq, g_sq_chan)
 __CPROVER_ensures(g_seq == OLD(g_seq) + 1 && g_at_chan == OLD(g_seq) && g_ret_chan == RV && g_chan_tr == tr &&
 	g_chan_prev == (void *) bprev && g_chan_next == (void *) bnext)
 ;
 int cl_enforce_task_rules(struct emu *emu, char tr, struct body *next)
 __CPROVER_requires(SEQ_PRE)
 __CPROVER_requires((tr != 'x' && tr != 'X') || next != NULL)
-__CPROVER_assigns(g_seq, g_at_rules, g_ret_rules, g_rules_tr, g_rules_next)
+__CPROVER_assigns(g_seq, g_sq_rules)
 __CPROVER_ensures(g_seq == OLD(g_seq) + 1 && g_at_rules == OLD(g_seq) && g_ret_rules == RV && g_rules_tr == tr &&
 	g_rules_next == (void *) next)
 ;
@@ -350,13 +350,12 @@ struct body *g_prev_run;       /* body running on this thread before the event (
 #define TR_EXP ((char) ((emu->ev->v == 'x' && g_prev_run != NULL) ? 'X' : \
 	(emu->ev->v == 'e' && NEXT_RUN != NULL) ? 'E' : (char) emu->ev->v))
 int c_update_task(struct emu *emu)
-__CPROVER_requires(EMU_SHAPE)
+__CPROVER_requires(EMU_SHAPE_BASE && IS_UPDATE)
 __CPROVER_requires(TOP == NULL || __CPROVER_is_fresh(TOP, sizeof(struct body)))
 __CPROVER_requires(g_nb == NULL || __CPROVER_pointer_equals(g_nb, TOP) || __CPROVER_is_fresh(g_nb, sizeof(struct body)))
 __CPROVER_requires(g_prev_run == RUNNING_TOP(TOP))
 __CPROVER_requires(WBIND(uts, w_v == emu->ev->v) && DIAG_PRE && g_seq == 0)
-__CPROVER_assigns(DIAG_FRAME, TOP, g_seq, g_at_state, g_ret_state, g_at_ss, g_ret_ss, g_ss_tr,
-	g_at_chan, g_ret_chan, g_chan_tr, g_chan_prev, g_chan_next, g_at_rules, g_ret_rules, g_rules_tr, g_rules_next)
+__CPROVER_assigns(DIAG_FRAME, TOP, SEQ_FRAME)
 /* 1. the state update comes first; if it refuses nothing else happens */
 __CPROVER_ensures(g_seq >= 1 && g_at_state == 0)
 __CPROVER_ensures(g_ret_state == 0 || (RV == -1 && g_seq == 1))
@@ -364,13 +363,12 @@ __CPROVER_ensures(g_ret_state == 0 || (RV == -1 && g_seq == 1))
 __CPROVER_ensures(g_ret_state != 0 || (g_seq >= 2 && g_at_ss == 1 && g_ss_tr == (char) emu->ev->v))
 __CPROVER_ensures(g_ret_state != 0 || g_ret_ss == 0 || (RV == -1 && g_seq == 2))
 /* 3. then the task channels, with the expanded transition and the bodies that
- *    ran before / run now on this thread (events X and E themselves are refused) */
-__CPROVER_ensures(g_ret_state != 0 || g_ret_ss != 0 || (emu->ev->v != 'X' && emu->ev->v != 'E') || (RV == -1 && g_seq == 2))
-__CPROVER_ensures(g_ret_state != 0 || g_ret_ss != 0 || emu->ev->v == 'X' || emu->ev->v == 'E' || (
+ *    ran before / run now on this thread */
+__CPROVER_ensures(g_ret_state != 0 || g_ret_ss != 0 || (
 	g_seq >= 3 && g_at_chan == 2 && g_chan_tr == TR_EXP && g_chan_prev == (void *) g_prev_run && g_chan_next == (void *) NEXT_RUN))
-__CPROVER_ensures(g_ret_state != 0 || g_ret_ss != 0 || emu->ev->v == 'X' || emu->ev->v == 'E' || g_ret_chan == 0 || (RV == -1 && g_seq == 3))
+__CPROVER_ensures(g_ret_state != 0 || g_ret_ss != 0 || g_ret_chan == 0 || (RV == -1 && g_seq == 3))
 /* 4. then the rules, on the same transition and the body that runs now */
-__CPROVER_ensures(g_ret_state != 0 || g_ret_ss != 0 || emu->ev->v == 'X' || emu->ev->v == 'E' || g_ret_chan != 0 || (
+__CPROVER_ensures(g_ret_state != 0 || g_ret_ss != 0 || g_ret_chan != 0 || (
 	g_seq == 4 && g_at_rules == 3 && g_rules_tr == TR_EXP && g_rules_next == (void *) NEXT_RUN &&
 	(RV == 0) == (g_ret_rules == 0)))
 __CPROVER_ensures(RV == 0 || RV == -1)
@@ -384,8 +382,5 @@ void h_update_task(void)
 	if (r == 0 && w_v == 'x' && g_prev_run == NULL) REACH("x accepted");
 	if (r == 0 && w_v == 'x' && g_prev_run != NULL) REACH("nested x (X) accepted");
 	if (r == 0 && w_v == 'e' && g_chan_tr == 'E') REACH("nested end (E) accepted");
-	if (r == 0 && w_v == 'e' && g_chan_tr == 'e') REACH("end accepted");
-	if (r == 0 && w_v == 'p') REACH("pause accepted");
 	if (r != 0 && g_seq == 1) REACH("refused by the state update");
-	if (r != 0 && g_seq == 4) REACH("refused by the rules");
 }
